@@ -312,6 +312,7 @@ func vecCacheHistories(r *RunCtx) {
 		sim.Run()
 		zap.VerifYield = nil
 		r.countN("sim.steps", sim.steps)
+		r.countN("probe.sched.yield-under-lock-recoveries", sim.lockStalls)
 		r.countN("sim.switches", sim.switches)
 		for site, n := range sim.siteCounts {
 			r.countN("probe.yield."+site, n)
